@@ -75,7 +75,7 @@ def full_info_grammar(g):
 class ParseStream:
     """Generates (grammar, strict, input) pairs and runs implementation + oracle."""
 
-    def __init__(self, chk, exe, n_grammars, exhaustive_len, extra_inputs, costs=(0, 5), p_anode=0.6, sentences_only=False, max_trees=None, n_families=0, err_rules=0, family_mutants=False):
+    def __init__(self, chk, exe, n_grammars, exhaustive_len, extra_inputs, costs=(0, 5), p_anode=0.6, sentences_only=False, max_trees=None, n_families=0, err_rules=0, family_mutants=False, block_maxlen=22):
         self.chk, self.exe = chk, exe
         self.vary = True
         self.pairs = []
@@ -100,7 +100,7 @@ class ParseStream:
             if not g.well_formed(False):
                 continue
             self.stats['family_grammars'] = self.stats.get('family_grammars', 0) + 1
-            for w in gen.family_inputs(rng, g):
+            for w in gen.family_inputs(rng, g, (16 if block_maxlen > 14 else 8) if getattr(g, 'pieces', None) else 6, block_maxlen):
                 if max_trees is None or gen.count_derivations(g, w) <= max_trees:
                     self.pairs.append((g, False, w))
                 if family_mutants and not sentences_only and rng.random() < 0.5:
@@ -191,7 +191,8 @@ class ParseStream:
                 toks = gen.codes_of(g, w)
                 v = yvlib.vary((self.chk.seed, i, ci), g.as_dict(), toks) if self.vary else None
                 if v:
-                    self.stats['varied_' + ('pad' if 'pad_after' in v else 'pre')] = self.stats.get('varied_' + ('pad' if 'pad_after' in v else 'pre'), 0) + 1
+                    kind = 'pad' if 'pad_after' in v else ('pre' if 'pre' in v else 'desc')
+                    self.stats['varied_' + kind] = self.stats.get('varied_' + kind, 0) + 1
                 script.append(yvlib.simple_case(cid, g.as_dict(), 1 if strict else 0, cfg, toks, allocmode=am, variation=v))
                 index.append((i, ci, cfg, am, v))
         res = yvlib.run_driver(self.exe, '\n'.join(script))
@@ -267,7 +268,7 @@ def run(pid, tier, seed, replay=None):
         amb_bias = pid in ('C03', 'C04', 'C05')
         ps = ParseStream(chk, exe, (120 if quick else 1200), (4 if quick else 5), 5, sentences_only=False,
                          costs=(0, 3) if pid == 'C04' else (0, 5), p_anode=0.75 if amb_bias else 0.6, max_trees=150,
-                         n_families=(60 if quick else 600) if amb_bias else (20 if quick else 200))
+                         n_families=(60 if quick else 600) if amb_bias else (45 if quick else 300), block_maxlen=12)
         ps.oracle_basics(want_trans=True, want_full=(pid == 'C05'))
         # keep sentences only
         if pid == 'C02':
@@ -281,10 +282,58 @@ def run(pid, tier, seed, replay=None):
         res = ps.run_impl(lambda i: cfgs if (ps.rec[i] is True and ps.trans[i] is not None) else [],
                           allocmode_for=(lambda i, cfg: (0 if (i + cfg['la']) % 2 == 0 else 2)) if pid == 'C04' else None)
         check_trees(chk, pid, ps, res)
+        if pid == 'C03':
+            cyclic_substream(chk, exe, 40 if quick else 400, ps)
     chk.cov['rule'] = ('random well-formed grammars (<=5 nonterminals, <=4 terminals, rhs<=4, random translations) x '
                        '(random derivations, their 1-2 token mutations, all strings up to a small length) x configurations; '
                        'a case is non-trivial+distinct when (grammar, input, configuration) is new and the grammar was accepted by yaep_read_grammar')
     return chk.finish(extra_cov={'stream': ps.stats})
+
+
+def cyclic_substream(chk, exe, n, ps):
+    """Grammars in which a nonterminal derives itself must not be accepted; should the definition go through all the
+    same, the result of an all-parses request must still be an acyclic DAG (C03's last clause)."""
+    import check_readgrammar as crg
+    rng = chk.rng
+    cases = []
+    for _ in range(n):
+        g = gen.rand_wf_grammar(rng, False, max_nt=3, max_t=2, max_rhs=3, p_anode=0.9)
+        if g is None:
+            continue
+        w = gen.rand_sentence(rng, g, maxlen=5)
+        if w is None:
+            continue
+        terms, rules = crg.inject(rng, g.terms, g.rules, 16)
+        # every rule builds a node, so that a derivation cycle shows as a cycle of the result
+        rules = [(l, r, (a if a is not None else 'cy%d' % k), c, (t if a is not None else list(range(len(r))))) for k, (l, r, a, c, t) in enumerate(rules)]
+        cases.append((gen.Gram(terms, rules), w))
+    script = [yvlib.simple_case('cy%d' % i, g.as_dict(), 0, {'la': rng.choice([0, 1, 2]), 'one': 0, 'cost': 0, 'rec': 1}, gen.codes_of(g, w))
+              for i, (g, w) in enumerate(cases)]
+    res = yvlib.run_driver(exe, '\n'.join(script), timeout_case=10) if script else []
+    qs, qi = [], []
+    accepted = 0
+    for k, ((g, w), r) in enumerate(zip(cases, res)):
+        ops = get_ops(r)
+        rd = (ops.get('read') or [{}])[0]
+        if rd.get('rc') != 0 and 'abort' not in r:
+            continue
+        accepted += 1
+        p = (ops.get('parse') or [None])[0]
+        rep = replay_obj('C03', g, False, w, {'one': 0}, 0, r, {'acyclic': True})
+        if 'abort' in r:
+            chk.violation(sig_of('C03', 'cyclic-abort', g, w, {}), 'a grammar with a derivation cycle was accepted and the parse aborted: %s' % r.get('abort'), rep)
+            continue
+        if p is None or p.get('root') is None or p.get('truncated'):
+            continue
+        q = dag_query(p, {})
+        if q is not None:
+            qs.append(q); qi.append((g, w, r, rep))
+    for a, (g, w, r, rep) in zip(yvlib.run_oracle(qs) if qs else [], qi):
+        d = parse_denote(a)
+        if d['status'] == 'cyclic' or not d['acyclic']:
+            chk.violation(sig_of('C03', 'cyclic', g, w, {}), 'the returned graph has a cycle (a grammar in which a nonterminal derives itself was accepted)', rep)
+    ps.stats['cyclic_grammars_tried'] = len(cases)
+    ps.stats['cyclic_grammars_accepted'] = accepted
 
 
 def check_C01(chk, ps, res):
@@ -344,6 +393,24 @@ def check_trees(chk, pid, ps, res):
         if q is not None:
             qs.append(q); qidx.append((i, ci))
     ans = dict(zip(qidx, [parse_denote(a) for a in yvlib.run_oracle(qs)]))
+    prune = {}
+    if pid == 'C04':
+        # third oracle round: the model of prune_to_minimal (Prune.v) applied to the implementation's own unpruned DAG
+        # (all parses, no cost flag); the runs with the cost flag must denote what the pruned model store denotes
+        pq, pidx = [], []
+        for (q, (i, ci)) in zip(qs, qidx):
+            cfg = res[(i, ci)][0]
+            if cfg['cost'] == 0 and cfg['one'] == 0 and ans[(i, ci)]['status'] == 'ok' and ans[(i, ci)]['altflat']:
+                body = q.split(' ', 2)[2]
+                for one in (0, 1):
+                    pq.append('PRUNE %d %s' % (one, body)); pidx.append((i, one, cfg['la']))
+        for (i, one, la), a in zip(pidx, yvlib.run_oracle(pq) if pq else []):
+            parts = a.split('|')
+            if parts[0] == 'ok':
+                prune[(i, one)] = (int(parts[1]), parts[2].split(';') if parts[2] else [], la)
+        ps.stats['pruning_model_queries'] = len(pq)
+        ps.stats['pruning_model_answers'] = len(prune)
+        ps.stats['pruning_compared'] = 0
     for (i, ci), (cfg, am, r) in sorted(res.items()):
         g, strict, w = ps.pairs[i]
         ops = get_ops(r)
@@ -443,6 +510,21 @@ def check_trees(chk, pid, ps, res):
             rootfield = nodes[p['root']].get('cost') if nodes[p['root']]['k'] == 'anode' else None
             if rootfield is not None and rootfield != m and not d['hasalt']:
                 V('rootcost', 'root cost field %d, minimum %d' % (rootfield, m)); continue
+            pm = prune.get((i, cfg['one']))
+            if pm is not None:
+                pcost, ptrees, pla = pm
+                ps.stats['pruning_compared'] += 1
+                if any(c != pcost for c in owntrees.values()):
+                    V('prune_cost', 'pruning model: least cost of the unpruned DAG is %d, the result denotes a tree of cost %s' % (pcost, sorted(set(owntrees.values())))); continue
+                if cfg['one'] == 0 and set(owntrees) != set(ptrees):
+                    dif = sorted(set(owntrees) ^ set(ptrees))
+                    V('prune_all', 'pruning model: the pruned unpruned-DAG denotes %d trees, the result %d; differs in %s' % (len(ptrees), len(owntrees), dif[0])); continue
+                if cfg['one'] == 1:
+                    allp = prune.get((i, 0))
+                    if cfg['la'] == pla and set(owntrees) != set(ptrees):
+                        V('prune_one', 'pruning model: first alternative of least cost gives %s, the result is %s' % (ptrees[:1], sorted(owntrees)[:1])); continue
+                    if allp is not None and not set(owntrees) <= set(allp[1]):
+                        V('prune_one_member', 'pruning model: the single tree %s is not among the least cost trees of the unpruned DAG' % sorted(owntrees)[:1]); continue
         elif pid == 'C05':
             F = ps.full[i]
             if F is None:
